@@ -34,6 +34,9 @@ func (w *world) fuzzSets(m meth, p *plan) []sset {
 	if w.n >= 2 {
 		atoms = append(atoms, "C-", "A-", "IRM-", "IRA-")
 	}
+	if w.v > 0 {
+		atoms = append(atoms, "V", "VA", "VC")
+	}
 	for _, a := range atoms {
 		if !p.req(w.holdsFor(append(append([]string{}, multi...), a), p)) {
 			multi = append(multi, a)
